@@ -17,6 +17,8 @@ def payload_histories(maxlen):
     strings = [""]
     for n in range(1, maxlen + 1):
         strings += ["".join(t) for t in itertools.product(ALPHABET, repeat=n)]
+    # text that begins like git's submodule lines without being one (no full hash): ordinary lines
+    strings += ["Subproject commit abc123", "Subproject commit " + "z" * 40, "Subproject commit " + "a" * 39, "Subproject commit"]
     out = []
     L = lambda c, f=0, g=0, kd="": {"c": c, "f": f, "g": g, "kd": kd}
     for kind in ("minus", "plus", "zero"):
@@ -106,6 +108,7 @@ def run(tier):
         plans.append(stream.Plan("payload+diff-so-fancy", [h], ["--diff-so-fancy"], None, fn))
         plans.append(stream.Plan("payload+diff-highlight+markers", [h], ["--diff-highlight", "--keep-plus-minus-markers"], {"keep": True}, fn))
     plans.append(stream.Plan("rs/lookalike", [h for _, h in lookalikes]))
+    plans.append(stream.Plan("rs/sha256-submodules", [h for h in covsub if any(l["c"] in ("subm", "subp") for l in h)], skin={"subhash64": True}))
     # word-diff mode: delta runs the (stub) git itself and reads the mode off its command line
     wd_hists = [h for h in git_hists if any(l["c"] in ("minus", "plus", "zero") for l in h)]
     wd_sample = wd_hists if tier == "thorough" else rnd.sample(wd_hists, min(len(wd_hists), 600))
